@@ -181,7 +181,8 @@ def corruption_selftest(ctx, events, verdicts):
         if (v["ok"] and ev["ctor"] == "ok" and len(ev["items"]) >= 2 and
                 len(set(strs)) == len(strs) and len(ev["vals"]) == len(strs)
                 and any(g["ok"] for g in ev["tv"])
-                and ev["items"][0]["k"] in ("S", "R")):
+                and all(i["k"] == "S" for i in ev["items"])
+                and len(set(i["lo"] for i in ev["items"])) == len(strs)):
             pick = ev
             break
     if pick is None:
